@@ -402,6 +402,7 @@ def load(repo):
     _expand_value_helpers(decls)
     _inline_record_locals(decls)
     _counted_while_loops(decls)
+    _copy_and_adjust_items(decls)
     try:
         os.makedirs(cdir, exist_ok=True)
         import sys
@@ -465,6 +466,92 @@ def _blank(kind, **kw):
     for k, v in kw.items():
         setattr(n, k, v)
     return n
+
+
+def _copy_and_adjust_items(decls):
+    """An agenda item made as an adjusted copy of another one --
+
+        cell_item parent = *item;  parent.cat = ..;  parent.left = item;  ..;  agenda.push(parent);
+
+    -- is the item `{f1, f2, ..}` with, for every field of cell_item in declaration order, the value assigned to it or, for
+    the fields left alone, that field of the item copied (`item->f`).  Only when the local is declared by copying `*p` (p a
+    pointer to an item), the statements up to the push are plain `local.field = expr;` assignments that do not read the
+    local, and the local is not used after the push."""
+    ps = decls.get('parse_sentence')
+    rec = decls.get('cell_item')
+    if ps is None or rec is None:
+        return
+    fields = fields_of(rec)
+    for blk in [b for b in ps.walk() if b.kind == 'CompoundStmt']:
+        i = 0
+        while i < len(blk.kids):
+            st = blk.kids[i]
+            i += 1
+            if st.kind != 'DeclStmt' or len(st.kids) != 1 or st.kids[0].kind != 'VarDecl':
+                continue
+            vd = st.kids[0]
+            if 'cell_item' not in (vd.type or '') or '*' in (vd.type or '') or '&' in (vd.type or ''):
+                continue
+            init = vd.kids[-1] if vd.kids else None
+            src_ptr = None
+            x = init
+            while x is not None and x.kind in ('CXXConstructExpr', 'ImplicitCastExpr', 'MaterializeTemporaryExpr', 'ExprWithCleanups', 'ParenExpr') and x.kids:
+                x = x.kids[0]
+            if x is not None and x.kind == 'UnaryOperator' and x.op == '*' and x.kids:
+                y = strip(x.kids[0])
+                if y.kind == 'DeclRefExpr':
+                    src_ptr = y
+            if src_ptr is None:
+                continue
+            assigned = {}
+            j = i
+            ok = True
+            while j < len(blk.kids):
+                a = blk.kids[j]
+                if a.kind == 'BinaryOperator' and a.op == '=' and strip(a.kids[0]).kind == 'MemberExpr' and not strip(a.kids[0]).arrow \
+                        and strip(strip(a.kids[0]).kids[0]).kind == 'DeclRefExpr' and strip(strip(a.kids[0]).kids[0]).ref == vd.name:
+                    f = strip(a.kids[0]).name
+                    if f not in fields or any(r.kind == 'DeclRefExpr' and r.ref == vd.name for r in a.kids[1].walk()):
+                        ok = False
+                        break
+                    assigned[f] = a.kids[1]
+                    j += 1
+                    continue
+                break
+            if not ok or j >= len(blk.kids):
+                continue
+            push = blk.kids[j]
+            call = push
+            if not (call.kind == 'CXXMemberCallExpr' and strip(call.kids[0]).name in ('push', 'emplace') and len(call.kids) == 2):
+                continue
+            arg = strip(call.kids[1])
+            while arg.kind in ('CXXConstructExpr', 'MaterializeTemporaryExpr') and arg.kids:
+                arg = strip(arg.kids[0])
+            if not (arg.kind == 'DeclRefExpr' and arg.ref == vd.name):
+                continue
+            later = [r for k in blk.kids[j + 1:] for r in k.walk() if r.kind == 'DeclRefExpr' and r.ref == vd.name]
+            if later:
+                continue
+            lst = _blank('InitListExpr', type=vd.type, line=push.line)
+            for f in fields:
+                if f in assigned:
+                    lst.kids.append(clone(assigned[f]))
+                else:
+                    me = _blank('MemberExpr', name=f, arrow=True, line=push.line)
+                    me.kids = [clone(src_ptr)]
+                    lst.kids.append(me)
+            tmp = _blank('MaterializeTemporaryExpr', type=vd.type, line=push.line)
+            tmp.kids = [lst]
+            call.kids[1] = tmp
+
+            def adopt(n, parent):
+                n.parent = parent
+                for k in n.kids:
+                    adopt(k, n)
+            adopt(tmp, call)
+            # the declaration and the adjustments are now part of the pushed value
+            del blk.kids[i - 1:j]
+            i = i - 1
 
 
 def _counted_while_loops(decls):
